@@ -687,18 +687,18 @@ def prog_case(r, cid, cls):
         if k in ('attns', 'both'):
             op('v', op='attns', at=at, name=pfx + ':k', uri=uri)
         if k == 'nested':
-            op(op='elns', at=99, name=pfx + ':inner', uri=uri)
+            op(op='elns', at=r.choice([-1, -1, 99]), name=pfx + ':inner', uri=uri)       # -1: below the element just created
     elif cls == 'ns-default-undeclare':
         base = r.choice(['ns', 'nsp'])
         op(op='elns', at=r.choice([0, 1, 2]), name='nn')           # no namespace, under a default namespace
         if r.random() < 0.5:
-            op(op='elns', at=99, name='inner')
+            op(op='elns', at=r.choice([-1, -1, 99]), name='inner')
     elif cls == 'ns-prefix-conflict':
         base = r.choice(['ns', 'nsp'])
         k = r.choice(['attr-vs-element', 'attr-vs-attr', 'attr-vs-decl'])
         if k == 'attr-vs-element':
             op(op='elns', at=0, name='w:e', uri='urn:1')
-            op('v', op='attns', at=99, name='w:k', uri='urn:2')
+            op('v', op='attns', at=r.choice([-1, -1, 99]), name='w:k', uri='urn:2')
         elif k == 'attr-vs-attr':
             op('v', op='attns', at=at, name='w:k', uri='urn:1')
             op('v', op='attns', at=at, name='w:j', uri='urn:2')
@@ -710,7 +710,17 @@ def prog_case(r, cid, cls):
     elif cls == 'ns-rebind-child':
         base = 'ns'
         op(op='elns', at=1, name='p:e', uri='urn:p2')                # p is bound to urn:p on the root: a re-declaration is needed
-        if r.random() < 0.5:
+        k = r.random()
+        if k < 0.6:
+            # back to the outer binding below the element that re-bound the prefix (-1), possibly one level further down
+            if r.random() < 0.4:
+                op(op='elns', at=-1, name='mid')
+            if r.random() < 0.5:
+                op(op='elns', at=-1, name='p:back', uri='urn:p')
+            else:
+                op(op='elns', at=-1, name='back')
+                op('v', op='attns', at=-1, name='p:att', uri='urn:p')
+        elif k < 0.8:
             op(op='elns', at=99, name='p:back', uri='urn:p')
     elif cls == 'eref-node':
         base = 'dtd'
